@@ -10,6 +10,7 @@
 From Emmet Require Import lib.Base model.MarkupTokenizer model.MarkupParser model.MarkupConvert
      model.MarkupResolve model.OutStream model.FormatHtml model.FormatIndent model.MarkupExpand.
 From Emmet Require Import model.MarkupBem proofs.BemProofs.
+From Emmet Require proofs.LoremFill.
 From Emmet Require Import proofs.ParserSpine proofs.TokenizeRender proofs.NumberingProofs proofs.ConvertProofs
      proofs.SafeResolve proofs.IndentStream proofs.HtmlEvents.
 Local Open Scope nat_scope.
@@ -380,13 +381,31 @@ Proof.
   eapply eq_trans; [apply (bind_ok _ _ _ Eg)|]. reflexivity.
 Qed.
 
+(* no name of a simple forest is a lorem header: the lorem pass leaves it alone *)
+Lemma simple_lorem_free P :
+  (forall x, P x = true -> x <> [] /\ not_lorem x = true) ->
+  forall l, forallb (simple P) l = true -> forallb LoremFill.lorem_free l = true.
+Proof.
+  intros HP. assert (Hn : forall n, simple P n = true -> LoremFill.lorem_free n = true).
+  { induction n as [nm v rp at_ ch sc IH] using anode_ind'. intros Hs.
+    destruct (simple_inv P _ Hs) as [x [E [Hp Hch]]]. cbn [an_repeat an_children] in *.
+    injection E as -> -> -> ->. destruct (HP x Hp) as [Hne Hl].
+    rewrite LoremFill.lorem_free_eq. unfold lorem_header. destruct x as [|c x]; [contradiction|].
+    unfold not_lorem in Hl. destruct (match_lorem (c :: x)); [|discriminate]. cbn [andb].
+    clear Hs. induction IH as [|k ks Hk _ IHks]; [reflexivity|].
+    cbn [forallb] in *. apply andb_prop in Hch. destruct Hch as [H1 H2]. rewrite (Hk H1), (IHks H2). reflexivity. }
+  induction l as [|c l IH]; intros H; [reflexivity|].
+  cbn [forallb] in *. apply andb_prop in H. destruct H as [H1 H2]. rewrite (Hn c H1), (IH H2). reflexivity.
+Qed.
+
 Lemma transform_list_simple cfg P :
   (forall x, P x = true -> x <> [] /\ not_lorem x = true) ->
   forall l, forallb (simple P) l = true -> transform_list cfg l = Ok l.
 Proof.
-  intros HP. induction l as [|c l IH]; intros H; [reflexivity|].
+  intros HP l H. rewrite LoremFill.transform_list_free by (apply (simple_lorem_free P HP); exact H).
+  revert H. induction l as [|c l IH]; intros H; [reflexivity|].
   cbn [forallb] in H. apply andb_prop in H. destruct H as [H1 H2].
-  cbn [transform_list]. destruct (transform_tree_simple cfg P HP c H1 None true false []) as [pd [path E]].
+  cbn [transform_forest]. destruct (transform_tree_simple cfg P HP c H1 None true false []) as [pd [path E]].
   rewrite E. cbn [bind]. rewrite (IH H2). reflexivity.
 Qed.
 
